@@ -182,7 +182,7 @@ Theorem get_decision_table : forall p,
       | VOid o =>
         match text_of_oid o with
         | Ok t => get_to_python p = Return (PvStr t)
-        | Err e => o = [] /\ get_to_python p = Raise EDecode
+        | Err e => get_to_python p = Raise EDecode
         | Panic => False
         end
       end
@@ -197,7 +197,9 @@ Proof.
   cbn [get_to_python]. destruct (gr_vars r) as [|vb [|vb2 rest]]; [reflexivity| |repeat split; right; reflexivity].
   destruct (vb_value vb) as [b|z| |b|o|b|x|a b c d|z|z|z|b|z|z| | | ]; try reflexivity;
     try (split; [reflexivity|right; reflexivity]).
-  cbn [value_to_py]. destruct o as [|x o']; cbn [text_of_oid bind lift]; [split; reflexivity|reflexivity].
+  cbn [value_to_py]. pose proof (text_of_oid_no_panic o) as Hp. pose proof (text_of_oid_err o) as He.
+  destruct (text_of_oid o) as [t|e|]; cbn [bind lift]; [reflexivity| |contradiction].
+  rewrite (He e eq_refl). reflexivity.
 Qed.
 
 Theorem get_raises_only_snmp_errors : forall p e, get_to_python p = Raise e -> is_snmp_error e.
@@ -207,8 +209,9 @@ Proof.
   destruct (gr_vars r) as [|vb [|vb2 rest]]; try discriminate; try (inversion H; subst; right; reflexivity).
   destruct (vb_value vb) as [b|z| |b|o|b|x|a b c d|z|z|z|b|z|z| | | ]; try discriminate;
     try (inversion H; subst; right; reflexivity).
-  cbn [value_to_py] in H. destruct o as [|x o']; cbn [text_of_oid bind lift] in H; [|discriminate].
-  inversion H; subst. right. reflexivity.
+  cbn [value_to_py] in H. pose proof (text_of_oid_err o) as He.
+  destruct (text_of_oid o) as [t|e0|]; cbn [bind lift] in H; try discriminate.
+  rewrite (He e0 eq_refl) in H. inversion H; subst. right. reflexivity.
 Qed.
 
 (* ---- get_many ---- *)
